@@ -323,14 +323,10 @@ Definition class_of_name (name : str) : option ascii_kind := assoc_str name clas
 Definition fmt_char_b (c : N) : str :=
   if mem_N c bracket_special_chars || mem_N c special_chars then [c_bslash; c] else [c].
 
-(* String::len() is the length in bytes (UTF-8) *)
-Definition utf8_len (c : N) : nat :=
-  if N.ltb c 128 then 1 else if N.ltb c 2048 then 2 else if N.ltb c 65536 then 3 else 4.
-Definition byte_len (v : str) : nat := fold_right (fun c n => utf8_len c + n) 0 v.
-
+(* matches_multi_character: value.chars().nth(1).is_some() *)
 Definition batom_multi (a : batom) : bool :=
   match a with
-  | BColl v | BEquiv v => Nat.ltb 1 (byte_len v)
+  | BColl v | BEquiv v => Nat.ltb 1 (length v)
   | _ => false
   end.
 
